@@ -54,10 +54,10 @@ package crlloader
 // locations onto one store other than through the hash.
 //@ func URLLoader.GetCRLLocationIdentifier
 //@   props C20 C01 C11
-//@   ensures[C20,C01,C11] id_is_digest_of_the_location: err == nil ==> ret == locId(normUrl(L.UrlString))
+//@   ensures[C20,C01,C11,C10] id_is_digest_of_the_location: err == nil ==> ret == locId(normUrl(L.UrlString))
 //@ func FileLoader.GetCRLLocationIdentifier
 //@   props C20 C01 C11
-//@   ensures[C20,C01,C11] id_is_digest_of_the_location: err == nil ==> ret == locId(f.FileName)
+//@   ensures[C20,C01,C11,C10] id_is_digest_of_the_location: err == nil ==> ret == locId(f.FileName)
 //@ func URLLoader.downloadCRL
 //@   props C17 C20
 //@   requires L != nil
